@@ -11,7 +11,7 @@ Decided on the time-grid state machine of the real TDS code (see C06 for the loo
     loop iteration and, by the C06 induction, events are neither lost nor repeated and stamps
     keep increasing across the boundary.  Interruption exactly at, just before and just after an
     event are instances of the symbolic pre-state.
-  * BOUNDED CROSS-CHECK (thorough): fixed step, accepted steps only: a run split at tf1 and an
+  * BOUNDED CROSS-CHECK: fixed step, accepted steps only: a run split at tf1 and an
     unsplit run to tf dispatch the same events and end at the same time (<= 6 iterations).
   * System.reset() + setup re-creates the same addresses and names as the first set-up.
 Not applicable to a solver: dill snapshots, view-array repair after unpickling, continuation in
@@ -91,13 +91,22 @@ def h_split_vs_unsplit(I):
     for split in (False, True):
         tds, system, cfg, S, stored, fired, conv = c06.make_tds(I, 0, 1, base_case=True, conv_fix=True, fixt_fix=True)
         cfg.shrinkt = True
-        I.assume(LE(cfg.tf, 3 * cfg.tstep)); I.assume(LT(0, tf1)); I.assume(LT(tf1, cfg.tf)); I.assume(LT(0, S[0]))
+
+        def itm_step(tds=tds):
+            tds.converged, tds.niter = True, 3        # every step accepted after 3 Newton iterations
+            return True
+        tds.itm_step = itm_step
+        # concrete step and end time keep the exploration small; the split time and the event time stay symbolic
+        cfg.tstep = np.float64(0.1) if not I.symbolic else pysym.SR(pysym.ratval('1/10'))
+        cfg.tf = np.float64(0.25) if not I.symbolic else pysym.SR(pysym.ratval('1/4'))
+        tds.deltatmax = cfg.tstep
+        tds.deltatmin = np.float64(0.01) if not I.symbolic else pysym.SR(pysym.ratval('1/100'))
+        I.assume(LT(0, tf1)); I.assume(LT(tf1, cfg.tf)); I.assume(LT(0, S[0]))
         tf_final = cfg.tf
         system.dae.t = (pysym.SR(z3.RealVal(0)) if I.symbolic else np.float64(0.0))
         tds.niter = 0
         tds.solver = None
         tds.deltat = cfg.tstep
-        I.assume(LE(cfg.tstep, tds.deltatmax)); I.assume(LE(tds.deltatmin, cfg.tstep))
         if split:
             cfg.tf = tf1
         tds.calc_h()
@@ -143,7 +152,7 @@ def job(spec):
     if kind == 'resume':
         return H.run(f'TDS.init_resume from an exit state [pointer={arg}]', h_resume(arg), timeout_ms=20000, region=lambda v, c: c)
     if kind == 'split':
-        return H.run('split vs unsplit run (fixed step, one event)', h_split_vs_unsplit, timeout_ms=30000, max_paths=20000, region=lambda v, c: c)
+        return H.run('split vs unsplit run (fixed step 0.1, tf = 0.25, one event)', h_split_vs_unsplit, timeout_ms=30000, max_paths=3000, region=lambda v, c: c)
     if kind == 'reset':
         return H.run('System.reset + setup', h_reset, region=lambda v, c: c)
 
@@ -158,14 +167,12 @@ def main():
     import andes.system as SY
     ck.encodes(TD.TDS.run, TD.TDS.init_resume, TD.TDS.calc_h, TD.TDS._calc_h_first, TD.TDS.do_switch, SY.System.reset, SY.System.setup)
     thorough = core.tier() == 'thorough'
-    ck.bound(pending_events=3, resume='one call from an arbitrary exit state', cross_check='tf <= 3*tstep, one event, <= 6 iterations per segment')
+    ck.bound(pending_events=3, resume='one call from an arbitrary exit state', cross_check='tstep = 0.1, tf = 0.25, split time and event time symbolic, <= 6 iterations per segment, <= 3000 paths')
     ck.stub('loop-body stubs of C06 (itm_step as success flag, store/switch_action recorders, progress bar cut)')
     ck.assume('time is a real number', 'the C06 inductive step (checked by C06) carries the invariant through the loop')
     ck.out('dill snapshots, fix_view_arrays after unpickling, continuation in another process -- object-graph serialisation is not encodable',
            'trajectory equality up to discretisation error (numerics)')
-    jobs = [('exit', k) for k in range(4)] + [('resume', k) for k in range(4)] + [('reset', 0)]
-    if thorough:
-        jobs.append(('split', 0))
+    jobs = [('exit', k) for k in range(4)] + [('resume', k) for k in range(4)] + [('reset', 0), ('split', 0)]
     res = core.pmap(job, jobs)
     ck.merge(res)
     ck.extra['states'] = ck.paths
